@@ -44,18 +44,20 @@ VARIABLES
   bal,      \* <<last balances reported by node 0, by node 1>>  (sequences of records)
   starved,  \* <<a live claim of node 0 was left out of a block, same for node 1>>
   asked,    \* [<<node, claim id>> -> feerate last requested for that claim in a BumpTransactionEvent]
+  est,      \* <<what node 0's fee estimator says (sat per 1000 weight), node 1's>>
+  gaveup,   \* nodes whose claim machinery has logged that it cannot raise the fee of a claim any further
   rb,       \* [n |-> the node just asked to rebroadcast its pending claims (-1: nobody),
             \*  cov |-> the channel outpoints its broadcasts / bump requests have covered since]
   phase     \* "op" | "check" | "final"
 
-ovars == <<par, height, txs, conf, com, known, handed, bal, starved, asked, rb, phase>>
+ovars == <<par, height, txs, conf, com, known, handed, bal, starved, asked, est, gaveup, rb, phase>>
 NoRb == [n |-> -1, cov |-> {}]
 
 OInit ==
   /\ par = [kind |-> "none", live |-> {}, owner |-> 0, delays |-> <<0, 0>>, anti_reorg |-> 6, chan_type |-> ""]
   /\ height = 0 /\ txs = <<>> /\ conf = <<>> /\ com = NoCom
   /\ known = <<{}, {}>> /\ handed = <<{}, {}>> /\ bal = <<<<>>, <<>>>> /\ starved = <<FALSE, FALSE>>
-  /\ asked = <<>> /\ rb = NoRb
+  /\ asked = <<>> /\ rb = NoRb /\ est = <<253, 253>> /\ gaveup = {}
   /\ phase = "op"
 
 ToSet(s) == {s[k] : k \in 1..Len(s)}
@@ -104,6 +106,27 @@ Tiny(o) == \E r \in Outs : OP(r) = o /\ IsHtlc(r) /\ r.amt < Uneconomic
 JusticeCovers ==
   (phase = "check" /\ HasCom /\ com.revoked /\ Victim \in par.live) =>
      G6(\A o \in CheaterClaimable : Spent(o) \/ HasLiveClaim(Victim, o) \/ Tiny(o))
+
+\* "re-issues those claims with adequate fees until they are buried": the cheater's delayed outputs (its
+\* balance, the outputs of its confirmed second-stage transactions) become spendable by the cheater
+\* `delay` blocks after they confirmed.  The justice claim is re-issued the faster the closer that height
+\* is (package.rs get_height_timer: every 15 blocks, every 3 blocks once at most 15 are left, every block
+\* once at most 3 are left): with the newest claim of such an output issued at height a and the expiry at
+\* T, the next one is due Gap(T - a) blocks later.  (Not judged once the node has logged that the fee
+\* of a claim cannot be raised any further -- the claimed value is used up.)
+CheaterDelayed ==
+  {OP(r) : r \in {x \in Outs : x.k = "to_local"}}
+  \cup UNION {SecondStage(t) : t \in {u \in DOMAIN conf : txs[u].by = Cheater /\ u # com.tx}}
+\* (a transaction made in answer to a rebroadcast request does not restart that timer)
+IssueHeights(n, o) == {txs[t].bh : t \in {u \in DOMAIN txs : txs[u].by = n /\ ~txs[u].sweep /\ ~txs[u].onrb /\ o \in ChanIns(u)}}
+Gap(x) == IF x <= 3 THEN 1 ELSE IF x <= 15 THEN 3 ELSE 15
+JusticeCadence ==
+  (phase = "check" /\ HasCom /\ com.revoked /\ Victim \in par.live /\ Victim \notin gaveup) =>
+     G6(\A o \in CheaterDelayed :
+          (~Spent(o) /\ IssueHeights(Victim, o) # {}) =>
+             LET a == Max(IssueHeights(Victim, o))
+                 T == conf[o[1]] + par.delays[com.owner + 1]
+             IN height - a < Gap(T - a))
 
 \* at the end: everything is in the victim's hands, reported and swept
 Reported(n, t) == \A k \in 0..(txs[t].nout - 1) : (txs[t].outwal[k + 1] \/ <<t, k>> \in handed[n + 1])
@@ -183,7 +206,7 @@ Open(p) ==
   /\ par' = p /\ height' = p.h /\ phase' = "op"
   /\ txs' = <<>> /\ conf' = <<>> /\ com' = NoCom
   /\ known' = <<{}, {}>> /\ handed' = <<{}, {}>> /\ bal' = <<<<>>, <<>>>> /\ starved' = <<FALSE, FALSE>>
-  /\ asked' = <<>> /\ rb' = NoRb
+  /\ asked' = <<>> /\ rb' = NoRb /\ est' = p.est /\ gaveup' = {}
 
 FeeTol(f) == 2 + f \div 50
 \* a transaction is handed to the broadcaster by `by`
@@ -195,7 +218,7 @@ Bcast(t, rec) ==
   /\ IF rec.dup
        THEN UNCHANGED txs
        ELSE /\ t \notin DOMAIN txs
-            /\ txs' = [x \in DOMAIN txs \cup {t} |-> IF x = t THEN rec ELSE txs[x]]
+            /\ txs' = [x \in DOMAIN txs \cup {t} |-> IF x = t THEN [rec EXCEPT !.onrb = (rec.by = rb.n)] ELSE txs[x]]
             /\ rec.by \in par.live =>
                  \* OnlyValidFinal
                  /\ G7(rec.valid /\ rec.final) /\ G6(rec.valid /\ rec.final)
@@ -207,8 +230,17 @@ Bcast(t, rec) ==
                                  \A e \in DOMAIN txs :
                                    (txs[e].by = rec.by /\ ~txs[e].sweep /\ ChanIns(e) # {} /\ ChanIns(e) = cins)
                                      => rec.feerate + FeeTol(rec.feerate) >= txs[e].feerate
-                    IN G6(Mono) /\ G7(Mono)
-  /\ UNCHANGED <<par, height, conf, com, known, handed, bal, starved, asked>>
+                        \* AdequateOnRebroadcast: a self-funded claim re-issued in answer to
+                        \* rebroadcast_pending_claims ("detecting substantial mempool feerate changes") pays what
+                        \* the fee estimator says now, or -- if the claimed value cannot afford that -- the feerate
+                        \* that spends half of it (package.rs compute_fee_from_spent_amounts)
+                        Adequate == (/\ rec.by = rb.n /\ cins # {} /\ \A j \in 1..Len(rec.wal) : ~rec.wal[j]
+                                     /\ rec.inval >= Uneconomic
+                                     /\ \A o \in cins : ~Spent(o)
+                                     /\ \E e \in DOMAIN txs : txs[e].by = rec.by /\ ~txs[e].sweep /\ ChanIns(e) = cins)
+                                      => rec.own + FeeTol(rec.own) >= Min({est[rec.by + 1], ((rec.inval \div 2) * 1000) \div rec.weight})
+                    IN G6(Mono /\ Adequate) /\ G7(Mono /\ Adequate)
+  /\ UNCHANGED <<par, height, conf, com, known, handed, bal, starved, asked, est, gaveup>>
 
 \* A BumpTransactionEvent of node n (anchor channels: the monitor asks the application to attach fees
 \* to its commitment transaction -- ChannelClose -- or to its zero-fee HTLC transactions --
@@ -222,12 +254,12 @@ Bump(n, c, target, ops) ==
      IN n \in par.live => (G6(Mono) /\ G7(Mono))
   /\ asked' = [x \in DOMAIN asked \cup {<<n, c>>} |-> IF x = <<n, c>> THEN target ELSE asked[x]]
   /\ rb' = IF n = rb.n THEN [rb EXCEPT !.cov = @ \cup ops] ELSE rb
-  /\ UNCHANGED <<par, height, txs, conf, com, known, handed, bal, starved>>
+  /\ UNCHANGED <<par, height, txs, conf, com, known, handed, bal, starved, est, gaveup>>
 
 Commit(c) ==
   /\ ~HasCom /\ com' = c /\ phase' = "op"
   /\ known' = c.known
-  /\ UNCHANGED <<par, height, txs, conf, handed, bal, starved, asked>> /\ rb' = NoRb
+  /\ UNCHANGED <<par, height, txs, conf, handed, bal, starved, asked, est, gaveup>> /\ rb' = NoRb
 
 \* was a live claim of node n left out?
 LeftOut(n, ids) == \E t \in DOMAIN txs :
@@ -238,34 +270,44 @@ Block(h, ids) ==
   /\ ids \subseteq DOMAIN txs
   /\ conf' = [x \in DOMAIN conf \cup ids |-> IF x \in DOMAIN conf THEN conf[x] ELSE h]
   /\ starved' = <<starved[1] \/ LeftOut(0, ids), starved[2] \/ LeftOut(1, ids)>>
-  /\ UNCHANGED <<par, txs, com, known, handed, bal, asked>> /\ rb' = NoRb
+  /\ UNCHANGED <<par, txs, com, known, handed, bal, asked, est, gaveup>> /\ rb' = NoRb
 
 Idle(from, h) ==
   /\ from = height + 1 /\ h >= from /\ height' = h /\ phase' = "check"
   /\ starved' = <<starved[1] \/ LeftOut(0, {}), starved[2] \/ LeftOut(1, {})>>
-  /\ UNCHANGED <<par, txs, conf, com, known, handed, bal, asked>> /\ rb' = NoRb
+  /\ UNCHANGED <<par, txs, conf, com, known, handed, bal, asked, est, gaveup>> /\ rb' = NoRb
 
 \* several empty blocks of which the node is only told the last (no checkpoint in between)
 Jump(from, h) ==
   /\ from = height + 1 /\ h >= from /\ height' = h /\ phase' = "op"
   /\ starved' = <<starved[1] \/ LeftOut(0, {}), starved[2] \/ LeftOut(1, {})>>
-  /\ UNCHANGED <<par, txs, conf, com, known, handed, bal, asked>> /\ rb' = NoRb
+  /\ UNCHANGED <<par, txs, conf, com, known, handed, bal, asked, est, gaveup>> /\ rb' = NoRb
 
 Preimage(n, hash) ==
   /\ known' = [known EXCEPT ![n + 1] = @ \cup {hash}] /\ phase' = "op"
-  /\ UNCHANGED <<par, height, txs, conf, com, handed, bal, starved, asked>> /\ rb' = NoRb
+  /\ UNCHANGED <<par, height, txs, conf, com, handed, bal, starved, asked, est, gaveup>> /\ rb' = NoRb
 
 \* the tip is reorganised away down to height h; no transaction of the run was confirmed above h
 \* (reorganisations that unconfirm transactions are C11's subject)
 Rewind(h) ==
   /\ h < height /\ \A t \in DOMAIN conf : conf[t] <= h
   /\ height' = h /\ phase' = "op" /\ rb' = NoRb
-  /\ UNCHANGED <<par, txs, conf, com, known, handed, bal, starved, asked>>
+  /\ UNCHANGED <<par, txs, conf, com, known, handed, bal, starved, asked, est, gaveup>>
+
+\* node n's fee estimator now says v
+Feerate(n, v) ==
+  /\ est' = [est EXCEPT ![n + 1] = v] /\ phase' = "op"
+  /\ UNCHANGED <<par, height, txs, conf, com, known, handed, bal, starved, asked, gaveup, rb>>
+
+\* node n's claim machinery logs that it cannot raise the fee of a claim any further
+GaveUp(n) ==
+  /\ gaveup' = gaveup \cup {n} /\ phase' = "op"
+  /\ UNCHANGED <<par, height, txs, conf, com, known, handed, bal, starved, asked, est, rb>>
 
 \* the application asks node n to rebroadcast its pending claims
 Rebroadcast(n) ==
   /\ rb' = [n |-> n, cov |-> {}] /\ phase' = "op"
-  /\ UNCHANGED <<par, height, txs, conf, com, known, handed, bal, starved, asked>>
+  /\ UNCHANGED <<par, height, txs, conf, com, known, handed, bal, starved, asked, est, gaveup>>
 
 \* SpendableOutputs: each descriptor names a real, confirmed output with its real value
 Spendable(n, ds) ==
@@ -273,7 +315,7 @@ Spendable(n, ds) ==
   /\ G7(\A d \in ToSet(ds) : d.confirmed /\ d.amt = d.real_amt /\ d.op \notin handed[n + 1])
   /\ G6(\A d \in ToSet(ds) : d.confirmed /\ d.amt = d.real_amt)
   /\ handed' = [handed EXCEPT ![n + 1] = @ \cup {d.op : d \in ToSet(ds)}]
-  /\ UNCHANGED <<par, height, txs, conf, com, known, bal, starved, asked, rb>>
+  /\ UNCHANGED <<par, height, txs, conf, com, known, bal, starved, asked, est, gaveup, rb>>
 
 \* the node's keys can actually spend what was reported
 Sweep(n, t, rec, good) ==
@@ -282,24 +324,24 @@ Sweep(n, t, rec, good) ==
   /\ IF good /\ t \notin DOMAIN txs
        THEN txs' = [x \in DOMAIN txs \cup {t} |-> IF x = t THEN rec ELSE txs[x]]
        ELSE UNCHANGED txs
-  /\ UNCHANGED <<par, height, conf, com, known, handed, bal, starved, asked, rb>>
+  /\ UNCHANGED <<par, height, conf, com, known, handed, bal, starved, asked, est, gaveup, rb>>
 
 Balances(n, items) ==
   /\ bal' = [bal EXCEPT ![n + 1] = items] /\ phase' = "op"
-  /\ UNCHANGED <<par, height, txs, conf, com, known, handed, starved, asked, rb>>
+  /\ UNCHANGED <<par, height, txs, conf, com, known, handed, starved, asked, est, gaveup, rb>>
 
 Checkpoint(h) ==
   /\ h = height /\ phase' = "check"
-  /\ UNCHANGED <<par, height, txs, conf, com, known, handed, bal, starved, asked, rb>>
+  /\ UNCHANGED <<par, height, txs, conf, com, known, handed, bal, starved, asked, est, gaveup, rb>>
 
 Final(f) ==
   /\ phase' = "final"
   \* bounded liveness: under fair mining everything is over within the settle horizon
   /\ G7((HasCom /\ ~com.revoked) => (f.unswept = 0 /\ Len(f.mempool_left) = 0))
   /\ G6((HasCom /\ com.revoked) => (f.unswept = 0 /\ Len(f.mempool_left) = 0))
-  /\ UNCHANGED <<par, height, txs, conf, com, known, handed, bal, starved, asked>> /\ rb' = NoRb
+  /\ UNCHANGED <<par, height, txs, conf, com, known, handed, bal, starved, asked, est, gaveup>> /\ rb' = NoRb
 
-Silent == phase' = "op" /\ UNCHANGED <<par, height, txs, conf, com, known, handed, bal, starved, asked, rb>>
+Silent == phase' = "op" /\ UNCHANGED <<par, height, txs, conf, com, known, handed, bal, starved, asked, est, gaveup, rb>>
 
 TypeOK ==
   /\ phase \in {"op", "check", "final"}
